@@ -94,6 +94,22 @@ func shapes() []Shape {
 		sh = append(sh, mk(fmt.Sprintf("chunk of %d bytes", n), true, func(k int) *ref.StreamSpec {
 			return &ref.StreamSpec{Client: A, Server: B, CPort: 1003, SPort: 80, Start: start(k), Pkts: simplePkts(k, "f1.pcap", C("pre"), ref.Chunk{Dir: ref.DirS2C, Data: fill(n, byte(n))}, C("post"))}
 		}))
+		// the packet that is split into several records is the first / the last packet of the stream
+		// (the last record of the stream is then a continuation record), or the only one
+		if n == 65535 {
+			continue
+		}
+		sh = append(sh, mk(fmt.Sprintf("chunk of %d bytes on the last packet", n), true, func(k int) *ref.StreamSpec {
+			return &ref.StreamSpec{Client: A, Server: B, CPort: 1016, SPort: 80, Start: start(k), Pkts: simplePkts(k, "f1.pcap", C("pre"), S("mid"), ref.Chunk{Dir: ref.DirC2S, Data: fill(n, byte(n+1))})}
+		}))
+		sh = append(sh, mk(fmt.Sprintf("chunk of %d bytes on the first packet", n), true, func(k int) *ref.StreamSpec {
+			return &ref.StreamSpec{Client: A, Server: B, CPort: 1017, SPort: 80, Start: start(k), Pkts: simplePkts(k, "f1.pcap", ref.Chunk{Dir: ref.DirS2C, Data: fill(n, byte(n+2))}, C("post"), S(""))}
+		}))
+		if n == 70000 {
+			sh = append(sh, mk("chunk of 70000 bytes on the only packet", true, func(k int) *ref.StreamSpec {
+				return &ref.StreamSpec{Client: A, Server: B, CPort: 1018, SPort: 80, UDP: true, Start: start(k), Pkts: simplePkts(k, "f1.pcap", ref.Chunk{Dir: ref.DirC2S, Data: fill(n, 7)})}
+			}))
+		}
 	}
 	for _, n := range []int{1, 254, 255, 256, 300} {
 		n := n
